@@ -393,10 +393,9 @@ _C06_OPS = {0: ["and", "or"], 1: ["add"], 2: ["minus", "times"], 3: ["divide", "
 
 def c06_programs(name):
     parts = name.split("_")
-    if name == "index_target_assign":
+    if name == "index_target_flatten":
         yield "do f() start\n  return [[1]]\nend\nf()[0] get 2\nshout(1)\n"
         yield "do f() start\n  return [[1]]\nend\nf()[0][0] get 2\nshout(1)\n"
-    elif name == "index_target_method":
         yield "do f() start\n  return [[1]]\nend\nf()[0].push(1)\nshout(1)\n"
         yield "do f() start\n  return [[1]]\nend\nshout(f()[0].pop())\n"
     elif name == "bare_member":
@@ -429,6 +428,9 @@ def c06_programs(name):
         for recv in _C06_LITS[rk][:2]:
             for lits in itertools.product(*[_C06_LITS[k][:2] for k in ks]):
                 yield "do f(%s) start\n  return a.%s(%s)\nend\nshout(f(%s))\n" % (
+                    ", ".join(["a"] + params), field, ", ".join(params), ", ".join([recv] + list(lits)))
+                # the same call on a receiver that is not a place (the result of a call)
+                yield "do same(v) start\n  return v\nend\ndo f(%s) start\n  return same(a).%s(%s)\nend\nshout(f(%s))\n" % (
                     ", ".join(["a"] + params), field, ", ".join(params), ", ".join([recv] + list(lits)))
     elif parts[0] == "cond":
         for kw in ("if to say", "jasi"):
@@ -465,7 +467,9 @@ _C01_SCRIPTS = {
         + [("shout(1 divide 0)\nshout(2)\n", "ERR:Division by zero"), ("make z get 0\nshout(0 divide z)\n", "ERR:Division by zero")],
     "sem_number_mod": _c01_num("mod", [("7", "3", "1"), ("8", "4", "0"), ("2", "5", "2")])
         + [("shout(1 mod 0)\nshout(2)\n", "ERR:Division by zero")],
-    "sem_number_na": _c01_num("na", [("1", "1", "true"), ("1", "2", "false"), ("2", "1", "false"), ("0", "0", "true"), ("0.5", "0.25", "false")]),
+    "sem_number_na": _c01_num("na", [("1", "1", "true"), ("1", "2", "false"), ("2", "1", "false"), ("0", "0", "true"), ("0.5", "0.25", "false"),
+                                       ("1790000000000", "1790000000001", "false"), ("1000000", "1000001", "false"),
+                                       ("0.001", "0.003", "false"), ("minus 2", "2", "false")]),
     "sem_number_na_inf": [("make a get 10\nmake i get 0\njasi (i small pass 400) start\n  a get a times 10\n  i get i add 1\nend\nshout(a na a)\nmake b get a\nshout(b na a)\nshout(a na 1)\n", ["true", "true", "false"])],
     "sem_number_pass": _c01_num("pass", [("2", "1", "true"), ("1", "2", "false"), ("1", "1", "false"), ("0", "minus 1", "true")]),
     "sem_number_small_pass": _c01_num("small pass", [("1", "2", "true"), ("2", "1", "false"), ("1", "1", "false"), ("minus 1", "0", "true")]),
